@@ -298,7 +298,15 @@ def run(ctx, chk, tier="quick"):
         probe = rates_name
         rdef = gflow.def_value(probe) if isinstance(probe, ast.Name) else probe
         align, desc, quotient = _rate_alignment(mod, gflow, rdef, level_name, epoch_name)
-        if align == "unknown":
+        rolls = [c for c in ast.walk(gflow.expand(rdef) if rdef is not None else ast.Pass()) if isinstance(c, ast.Call)
+                 and (full_call_name(mod, c) or dotted_name(c.func) or "").split(".")[-1] == "roll"]
+        if align == "unknown" and rolls:
+            chk.ob("C04.O2", False, where_of(g, enclosing_stmt(probe)),
+                   "increments computed with %s, which wraps around: the first element is the first level minus the LAST one" % ast.unparse(rolls[0])[:50],
+                   "rate[0] = 0 (no increment ends at the first sample), rate[i] = (level[i] - level[i-1]) / step",
+                   key="classify_interstorms|rates-alignment",
+                   why="a record that ends lower than it starts gets a rise flag at its first sample although no increment ends there")
+        elif align == "unknown":
             chk.indeterminate("C04.O2", where_of(g, enclosing_stmt(probe)), "rate vector of unrecognised shape: %s" % desc[:100])
         else:
             chk.ob("C04.O2", align == "right", where_of(g, rdef), "rates = %s [%s-aligned]" % (desc, align),
